@@ -35,7 +35,7 @@
 (* involution, trace n-1, upper sheet preserved.  The harness reads one    *)
 (* OBS record per state (ObsFix / ObsWall, evaluated as invariants), the   *)
 (* labelled transitions (EmitFix) and the constant tables TARGETS and COX. *)
-(* Configurations: INIT InitFix NEXT NextFix INVARIANTS FixLaws            *)
+(* Configurations: INIT InitFix NEXT NextFix INVARIANTS FixLaws FarLaws    *)
 (* FormPreserved Normalised ObsFix, or INIT InitWall NEXT NextWall         *)
 (* INVARIANTS WallLaws ObsWall; VIEW ViewFix, ACTION_CONSTRAINT EmitFix.   *)
 (***************************************************************************)
@@ -43,7 +43,7 @@ EXTENDS HypIso
 
 CONSTANTS WB,      \* wall machine: bound on |entries| of the normals
           Rich      \* fixed-point machine: TRUE = all derived isometries and letters, FALSE = a part of them (quick tier, n >= 3)
-VARIABLE wall      \* wall machine: primitive normal of the hyperplane held; <<>> in machine (A)
+VARIABLE wall      \* wall machine: primitive normal of the hyperplane held; machine (A): <<>>, or the far translation <<p, q>>
 
 (***************************************************************************)
 (* 32-bit guards (TLC aborts on overflow): every product is evaluated only *)
@@ -192,10 +192,28 @@ FixAtoms == IF Rich THEN ExactAtoms
                     ELSE IF a.k = "lox" THEN a.q = 1
                     ELSE TRUE}
 \* origin_to cosets only matter in dimension 2, where the fixed point of a rotation does not depend on the frame
-NextFix == /\ \/ \E a \in FixAtoms : Left(a)
-              \/ (N = 2 /\ \E a \in UndetAtoms : LeftUndet(a))
-              \/ Invert
-           /\ UNCHANGED wall
+\* FAR conjugators: a translation of length ln(p/q) = 3..6 along the first axis, applied after at most one letter
+\* that fixes the origin (so the axes of the derived loxodromics leave through every direction of the far point),
+\* optionally followed by one turn about the origin (so the translation itself points in several directions).
+\* In machine (A) the otherwise unused variable `wall` records this: <<>> = near, <<p, q>> = far, <<p, q, 0>> = far and
+\* turned.  The integer entries of a far g exceed `Tame`, so for most of them the 32-bit laws are guarded out; their
+\* expected endpoints Act(g, (1, +-1, 0..)) are still exact (products of exact letters).
+FarParams == {<<20, 1>>, <<403, 1>>} \cup (IF Rich THEN {<<148, 1>>, <<1, 55>>} ELSE {})
+FarTurns == {a \in ExactAtoms : IF a.k = "perm" THEN a.s = Swap12 ELSE IF a.k = "rot" THEN a.c = 1 ELSE FALSE}
+Far == wall # <<>>
+LeftFar(t) == /\ wall = <<>> /\ exact /\ len <= 1 /\ FixesOrigin(g)
+              /\ g' = Mul(Lox(t[1], t[2]), g) /\ wall' = t /\ len' = len + 1 /\ UNCHANGED kind
+              /\ last' = [a |-> "left", atom |-> [k |-> "lox", p |-> t[1], q |-> t[2]]]
+FarTurn(a) == /\ Len(wall) = 2
+              /\ g' = Mul(AtomVal(a), g) /\ wall' = Append(wall, 0) /\ len' = len + 1 /\ UNCHANGED kind
+              /\ last' = [a |-> "left", atom |-> a]
+NextFix == \/ /\ wall = <<>>
+              /\ \/ \E a \in FixAtoms : Left(a)
+                 \/ (N = 2 /\ \E a \in UndetAtoms : LeftUndet(a))
+                 \/ Invert
+              /\ UNCHANGED wall
+           \/ \E t \in FarParams : LeftFar(t)
+           \/ \E a \in FarTurns : FarTurn(a)
 
 \* laws of the derived isometries in the current state (evaluated whenever the products fit in 32 bits);
 \* gi[x] = d * g.x for the probe points, pb bounds their entries
@@ -283,8 +301,37 @@ FixObs ==
         isrefl |-> IsReflection(g),
         normal |-> IF IsReflection(g) THEN NormalOf(g) ELSE <<>>]
   ELSE [g |-> g, kind |-> kind, len |-> len, tame |-> (kind = "coset" /\ Tame(g)), size |-> MaxAbs(g[1]), origin |-> Act(g, E1)]
-ObsFix == PrintT("OBS " \o ToJson(FixObs))
-ASSUME PrintT("TARGETS " \o ToJson([ell |-> EllAngles, para |-> ParaParams, invol |-> InvolKs, loxseq |-> LoxSeq, reps |-> {1, 0 - 1}]))
+\* a far state: only the loxodromic data (the other kinds are ill conditioned there)
+FarObs == [g |-> g, kind |-> kind, len |-> len, tame |-> TRUE, far |-> wall, size |-> MaxAbs(g[1]), origin |-> Act(g, E1),
+           lox |-> {[p |-> t[1], q |-> t[2], attr |-> Act(g, Attr(t)), rep |-> Act(g, Rep(t))] : t \in LoxParams},
+           arr |-> [i \in 1..Len(ArrOps) |-> [op |-> ArrOps[i], after |-> ArrExpected(ArrAfter(i))]]]
+ObsFix == PrintT("OBS " \o ToJson(IF Far THEN FarObs ELSE FixObs))
+\* far states: the origin really is far (Klein radius^2 >= 0.99), the endpoints are distinct; the eigen-equations
+\* are evaluated by FixLaws whenever they fit
+FarLaws == Far => /\ exact /\ MaxAbs(g[1]) <= 100000000
+                  /\ LET o == Act(g, E1) IN MaxAbsV(o) <= 30000 => 100 * (0 - MNorm(o)) <= o[1] * o[1]
+                  /\ Act(g, Ap) # Act(g, Am)
+
+(***************************************************************************)
+(* Composite isometries handed to from_reflection: a stack is accepted iff *)
+(* EVERY member is a reflection.  Members are named by the kind of derived *)
+(* isometry (R reflection, E rotation, L loxodromic, P parabolic, I the    *)
+(* involution of InvolKs); the verdict is computed from the exact matrices *)
+(* of one representative of each kind.                                     *)
+(***************************************************************************)
+StackKinds == {"R", "E", "L", "P"} \cup (IF InvolKs # {} THEN {"I"} ELSE {})
+KindRep(k) == CASE k = "R" -> Refl(CHOOSE v \in ReflTargets : TRUE)
+                [] k = "E" -> Ell(CHOOSE t \in EllAngles : TRUE)
+                [] k = "L" -> LoxOf(LoxSeq[1])
+                [] k = "P" -> ParaOf(CHOOSE c \in ParaParams : TRUE)
+                [] k = "I" -> Invol(CHOOSE c \in InvolKs : TRUE)
+Stacks == {<<a, b>> : a, b \in StackKinds} \cup {<<"R", "R", "R">>}
+          \cup {<<"R", k, "R">> : k \in StackKinds \ {"R"}} \cup {<<k, "R", k>> : k \in StackKinds \ {"R"}}
+StackAccepted(s) == \A i \in 1..Len(s) : IsReflection(KindRep(s[i]))
+StackTable == {[kinds |-> s, accept |-> StackAccepted(s)] : s \in Stacks}
+ASSUME \A r \in StackTable : r.accept <=> (\A i \in 1..Len(r.kinds) : r.kinds[i] = "R")
+ASSUME PrintT("TARGETS " \o ToJson([ell |-> EllAngles, para |-> ParaParams, invol |-> InvolKs, loxseq |-> LoxSeq, reps |-> {1, 0 - 1},
+                                     stacks |-> StackTable]))
 
 (***************************************************************************)
 (* (B) the wall machine                                                    *)
@@ -347,8 +394,13 @@ CoxPairs(m) == {[i |-> p[1], j |-> p[2], label |-> CoxLabel(m, p[1], p[2]),
                 : p \in {q \in CoxGens \X CoxGens : q[1] < q[2]}}
 \* hyperbolic triangle groups: 1/p + 1/q + 1/r < 1 (0 = infinity contributes nothing)
 TriHyperbolic(m) == RLess(RSum([i \in 1..3 |-> IF m[i] <= 0 THEN RZero ELSE R(1, m[i])]), ROne)
+\* stacks of words handed to from_reflection: accepted iff every word is a reflection u s u^-1
+CoxStackWords == {<<1>>, <<2, 1, 2>>, <<3>>, <<1, 2>>, <<>>, <<2, 3>>}
+CoxStacks == {<<a, b>> : a, b \in CoxStackWords} \cup {<<<<1>>, <<1, 2>>, <<2, 3, 2>>>>, <<<<1>>, <<3, 2, 3>>, <<2>>>>}
+ASSUME \A w \in CoxStackWords : w \in CoxReflWords \/ w \in CoxEvenWords
 CoxObs == [groups |-> {[m |-> m, pairs |-> CoxPairs(m)] : m \in CoxGroups},
            reflwords |-> CoxReflWords, evenwords |-> CoxEvenWords,
+           stacks |-> {[words |-> s, accept |-> \A i \in 1..Len(s) : s[i] \in CoxReflWords] : s \in CoxStacks},
            loxword |-> IF N = 2 THEN <<1, 2, 3, 1, 2, 3>> ELSE <<>>]
 ASSUME N = 2 => \A m \in CoxGroups : TriHyperbolic(m)
 ASSUME PrintT("COX " \o ToJson(CoxObs))
